@@ -324,6 +324,12 @@ func (l *lexer) endPos() position {
 			w = 1
 		}
 
+		// The end position is the position of the last rune,
+		// which might consist of multiple bytes
+		if offset+w >= endOffset {
+			break
+		}
+
 		if r == '\n' {
 			endPos.line++
 			endPos.column = 0
